@@ -541,6 +541,14 @@ theorem genesis_counts' {g : Genome W} {netId : Int} {net : Net W} (h : genesis 
   rw [this]
   simp
 
+theorem filter_insertAt_length {α} (p : α → Bool) (l : List α) (i : Nat) (a : α) (ha : p a = true) :
+    ((insertAt l i a).filter p).length = (l.filter p).length + 1 := by
+  unfold insertAt
+  rw [List.filter_append, List.filter_cons, if_pos ha, List.length_append, List.length_cons]
+  have : (l.filter p).length = ((l.take i).filter p).length + ((l.drop i).filter p).length := by
+    rw [← List.length_append, ← List.filter_append, List.take_append_drop]
+  omega
+
 /-! ### a well-formed genome with genes and an output is always expressed -/
 
 theorem linkGenes_total {nodes : List Node} (genes : List (Gene W))
